@@ -570,6 +570,66 @@ def grid(tier, seed):
     return pts
 
 
+def spatial_hairs(res, tier, seed):
+    """voters a few billionths of a unit apart on either side of the bisector of two candidates (and exactly repeated voters): each ballot
+    lists the candidates by non-decreasing distance from the voter's *own* position.  Distances read in exact fractions of the float
+    coordinates the generator returns (python_compared): 1e-9 of a unit is beyond TLC's integers once squared."""
+    import numpy as np
+    from ..common import load_votekit
+    load_votekit()
+    import votekit.ballot_generator as bg
+    from .. import elections as E
+    E.fast_df(True)
+    rng = random.Random(1688 + seed)
+    n = 0
+    for _ in range(60 if tier == "quick" else 1200):
+        nc = rng.randint(2, 4)
+        cands = ["A", "B", "C", "D"][:nc]
+        cpos = [[float(rng.randint(-3, 3)), float(rng.randint(-3, 3))] for _ in cands]
+        if len({tuple(p) for p in cpos}) < nc:
+            continue
+        a, b = rng.sample(range(nc), 2)
+        mid = [(cpos[a][0] + cpos[b][0]) / 2, (cpos[a][1] + cpos[b][1]) / 2]
+        d = [cpos[b][0] - cpos[a][0], cpos[b][1] - cpos[a][1]]
+        h = rng.choice([2e-9, 4e-9, 1e-10])
+        vpos = [[mid[0] - h * d[0], mid[1] - h * d[1]], [mid[0] + h * d[0], mid[1] + h * d[1]], list(mid), [mid[0] - h * d[0], mid[1] - h * d[1]]]
+        rng.shuffle(vpos)
+        q = {"c": [], "v": []}
+        g = bg.Spatial(candidates=cands, voter_dist=lambda: np.array(q["v"].pop(0) if q["v"] else [0.0, 0.0]), voter_dist_kwargs={},
+                       candidate_dist=lambda: np.array(q["c"].pop(0) if q["c"] else [0.0, 0.0]), candidate_dist_kwargs={})
+        q["c"], q["v"] = [list(p) for p in cpos], [list(p) for p in vpos]      # (the constructor draws once from each distribution to validate it)
+        n += 1
+        try:
+            with quiet():
+                pp, cp, vp = g.generate_profile(len(vpos))
+        except Exception as ex:  # noqa
+            res.violation("Spatial:Hairs(py):Error", type(ex).__name__, {"cpos": cpos, "vpos": vpos})
+            continue
+        vp = np.asarray(vp).reshape(len(vpos), -1)
+        # the profile is condensed: compare the multiset of ballots with the multiset of legal rankings per voter
+        want = {}
+        ok = True
+
+        def d2(v, c):
+            return sum((F(float(x)) - F(float(y))) ** 2 for x, y in zip(v, cp[c]))
+        legal = []
+        for v in vp:
+            ds = {c: d2(v, c) for c in cands}
+            legal.append(ds)
+        got = []
+        for bal in pp.ballots:
+            got += [[next(iter(s)) for s in bal.ranking]] * int(bal.weight)
+        # every generated ballot must be sorted for some voter, with a perfect matching between ballots and voters (4 voters: try all)
+        import itertools as _it
+        def sorted_for(r, ds):
+            return all(ds[r[i]] <= ds[r[i + 1]] for i in range(len(r) - 1))
+        ok = len(got) == len(legal) and any(all(sorted_for(got[i], legal[p[i]]) for i in range(len(got))) for p in _it.permutations(range(len(legal))))
+        if not ok:
+            res.violation("Spatial:Hairs(py):Order", "voters %s of a unit from a bisector: some ballot is not ordered by distance from its voter's own position" % h,
+                          {"cpos": cpos, "vpos": vpos, "ballots": got})
+    res.notes["python_compared"] = res.notes.get("python_compared", 0) + n
+
+
 def binding_selftest(res, verdicts, byid):
     """the specification is bound to what the code logged: exchange the probabilities of two outcomes of an accepted trace
     (the sum stays one) / move one kernel entry -> the trace must be rejected"""
@@ -692,6 +752,7 @@ def run(tier, seed, replay=None):
                                  inexact_is_violation=False)
     if not replay:
         binding_selftest(res, verdicts, byid)
+        spatial_hairs(res, tier, seed)
     info = {}
     for tid, v in verdicts.items():
         for m in v["monitors"]:
